@@ -321,6 +321,28 @@ def check_controller_state_writes(ctx, ctl) -> None:
     ctx.floor(rule, n, 2, "transient controllerState writes / resets in the controller")
 
 
+def check_resubmission_cap(ctx, ctl) -> None:
+    rule = "C02.R14-unrecoverable-means-the-documented-cap"
+    rc = ctl.func("Controller._restartComponent")
+    ctx.analysed(rc)
+    tests = [n for n in source.walk_own(rc) if isinstance(n, ast.Compare) and len(n.ops) == 1 and any(
+        isinstance(x, ast.Call) and last_attr(x) == "resubmissionAttempts" for x in ast.walk(n))]
+    ctx.floor(rule, len(tests), 1, "comparisons of resubmissionAttempts() with the cap in _restartComponent")
+    for t in tests:
+        left_is_attempts = isinstance(t.left, ast.Call) and last_attr(t.left) == "resubmissionAttempts"
+        ok = (left_is_attempts and isinstance(t.ops[0], ast.Lt)) or (not left_is_attempts and isinstance(t.ops[0], ast.Gt))
+        ctx.ob(rule, t, ok, "a resubmission is attempted only while the attempts are strictly below the cap" if ok else
+               "the controller resubmits while resubmissionAttempts() %s the cap: one more submission than documented - the exit that should be "
+               "unrecoverable is retried, and if the next execution succeeds the component ends FINISHED and the stage is reported complete "
+               "instead of failed" % type(t.ops[0]).__name__, construct="resubmissionAttempts() < cap")
+    caps = [a for f in ctl.functions.values() for a in source.walk_own(f) if isinstance(a, ast.Assign) and any(
+        isinstance(t_, ast.Attribute) and t_.attr == "_max_resubmission_attempts" for t_ in a.targets)]
+    for a in caps:
+        ok = isinstance(a.value, ast.Constant) and a.value.value == 5
+        ctx.ob(rule, a, ok, "the cap is the documented 5" if ok else "the resubmission cap is %s, not the documented 5" % short(a.value, 20),
+               construct="_max_resubmission_attempts = 5")
+
+
 def check_veto_at_delivery(ctx, ctl) -> None:
     """R10: typestate of the operator list of the postMortemCheck subscriptions: [.. hop ..]* veto [no hop]*"""
     FIRST_WINS = first_final_state_wins(ctx.repo.module(WORKFLOW))
@@ -436,6 +458,10 @@ def run(ctx) -> None:
                                                   "condition and to undo exactly that: a reset (= None) is reached only where the state was tested to "
                                                   "still be the transient value this function set, and the transient value is set only where no state "
                                                   "was set before - a component that was stopped while the controller waited keeps its final state"),
+        ("C02.R14-unrecoverable-means-the-documented-cap", "which exit is 'unrecoverable' is part of the rule-given outcome: the controller resubmits after "
+                                                         "SubmissionFailed only while resubmissionAttempts() < the cap, and the cap is the documented 5 - with "
+                                                         "'<=' the sixth failed submission is retried, a later success makes the component FINISHED and the "
+                                                         "stage is reported complete instead of failed (shared with C12.R4)"),
         ("C02.R7-shutdown-table", "aggregating consumer shuts down on any non-replicated SHUTDOWN input or when all replicated inputs are SHUTDOWN"),
     ]:
         ctx.rule(rid, text)
@@ -704,6 +730,7 @@ def run(ctx) -> None:
     # ------------------------------------------------ R8
     check_finish_handshake(ctx, wf)
     check_veto_at_delivery(ctx, ctl)
+    check_resubmission_cap(ctx, ctl)
     check_controller_state_writes(ctx, ctl)
     check_observed_before_stopped(ctx, ctl)
 
